@@ -3,10 +3,13 @@ package c13
 import (
 	"encoding/json"
 	"fmt"
+	"net"
 	"net/http"
+	"os"
 	"regexp"
 	"strconv"
 	"strings"
+	"time"
 
 	"github.com/caddyserver/caddy/v2"
 	caddycmd "github.com/caddyserver/caddy/v2/cmd"
@@ -130,6 +133,22 @@ func (p *prop) runCli(f []string) core.Outcome {
 	defer func() {
 		if err := caddy.Load([]byte(baseCfg), true); err != nil {
 			panic("restoring base config: " + err.Error())
+		}
+		// the stop of this case's admin server is asynchronous; a unix socket path is shared by
+		// consecutive cases (the old server may still accept on it, and unlinks the path when its
+		// listener closes): wait until it is really gone before the next case starts (harness
+		// synchronisation only — no outcome is read here)
+		if sn == "unix" {
+			for deadline := time.Now().Add(5 * time.Second); time.Now().Before(deadline); time.Sleep(5 * time.Millisecond) {
+				conn, derr := net.DialTimeout("unix", sh, time.Second)
+				if derr == nil {
+					conn.Close()
+					continue
+				}
+				if _, serr := os.Stat(sh); serr != nil {
+					break
+				}
+			}
 		}
 	}()
 	outcome := ""
